@@ -2,7 +2,6 @@
 import random
 
 from engine import graph, tlc
-from checks import stmt_common as sc
 from checks import stmtcache_driver as sd
 
 LEVEL = "model_checking"
